@@ -37,9 +37,9 @@ PROPS['C01'] = {
                 7: 'outside-preconditions-accepted', 9: 'datagram-type-4-255-truncated'},
     'trusted': ['hook tcp/coder/export_verif.go (build tag verif) exposing messageMaxLen read by gen'],
     'assumptions': ['Go int/uint8/uint16/uint32 conversions modelled in Z with explicit mod', 'slices modelled as lists; a destination buffer by its length and content'],
-    'level_text': 'TODO',
-    'level_note': 'TODO',
-    'explanation': 'TODO',
+    'level_text': "Coq theorems (Properties/C01.v) over a transcription of message/option(s).go, udp/coder, tcp/coder and the pooled marshal path: the option nibble/extension encoding and parseExtOpt are inverse for each class 0-12/13-268/269-65804; both passes of Options.Marshal equal the RFC 7252 encoding; Options.Unmarshal inverts it (and answers ErrOptionsTooSmall exactly when the capacity is short); for EVERY well-formed message both coders' Size = bytes written = RFC encoding, Decode returns the same message consuming exactly those bytes, DecodeHeader reports the frame; too-small buffers return (size, ErrTooSmall) with the buffer unchanged; token>8 / MID / type outside 0..255 are refused. The generated option tables are proved equal to the RFC registries. Type 4..255 is accepted and truncated (C01_type_truncation_refuted, known finding F9), so the refusal theorem is the _partial one. Model tied to the Go code by differential evaluation on generated messages aimed at 13/269/65805 (Size, Encode into 0/1/size-1/size/size+7 buffers with sentinel, Decode, DecodeHeader, pooled Marshal/Unmarshal).",
+    'level_note': 'Trusted: Coq kernel + vm_compute, the generator (option tables, MaxTokenSize, ExtendOption*, MessageLength*, messageMaxLen), the harness. Not covered: bodies >= messageMaxLen (2 GiB - 64 KiB; getHeader silently writes Len=0 there, model only), code > 255 (byte(m.Code) truncates; outside the stated preconditions), memory safety of the Go runtime itself.',
+    'explanation': "Coq theorems (Properties/C01.v) over a transcription of message/option(s).go, udp/coder, tcp/coder and the pooled marshal path: the option nibble/extension encoding and parseExtOpt are inverse for each class 0-12/13-268/269-65804; both passes of Options.Marshal equal the RFC 7252 encoding; Options.Unmarshal inverts it (and answers ErrOptionsTooSmall exactly when the capacity is short); for EVERY well-formed message both coders' Size = bytes written = RFC encoding, Decode returns the same message consuming exactly those bytes, DecodeHeader reports the frame; too-small buffers return (size, ErrT",
 }
 
 PROPS['C02'] = {
@@ -48,10 +48,10 @@ PROPS['C02'] = {
                 4: 'stream-decode-differs-from-reference', 5: 'accepted-message-not-canonical', 6: 'pooled-message-aliases-caller-buffer',
                 7: 'pooled-decode-differs-from-reference'},
     'trusted': ['hook tcp/coder/export_verif.go (build tag verif) exposing messageMaxLen read by gen'],
-    'assumptions': ['Go slices modelled as lists with explicit bounds checks (Panic result)', 'uint32 header arithmetic modelled in Z with explicit mod 2^32'],
-    'level_text': 'TODO',
-    'level_note': 'TODO',
-    'explanation': 'TODO',
+    'assumptions': ['Go slices modelled as lists with explicit bounds checks (Panic result)', 'uint32 header arithmetic modelled in Z with explicit mod 2^32', 'inputs are byte strings (values 0..255) shorter than 4 GiB'],
+    'level_text': 'Coq theorems (Properties/C02.v): the guarded option loop agrees with a grammar-shaped reference parser written from RFC 7252 3.1 on every byte string and every capacity (hence never panics, never exhausts its fuel); the datagram decoder = ref_udp, the stream header pre-parse = ref_tcp_header (Short / Invalid / fields, no uint32 wrap), the stream decoder = ref_tcp (only the declared frame is parsed; inputs < 4 GiB); accepted datagrams are well-formed (C01 preconditions), so they re-encode and decode to the same message (canonicalisation); the pooled capacity-retry loop terminates from any capacity >= 0 within 2+log2_up(|input|+2) decoder calls for both coders. Stream decode_wf/canonical are not proved (checked per case). Model tied to the Go code by differential evaluation: exhaustive short strings over a nibble-class alphabet, every first byte, truncations at every offset, mutations, random bytes through udp Decode, tcp DecodeHeader, tcp Decode, re-encode+decode, pooled decodes on fresh/recycled/capacity-0 messages under recover()+watchdog with the overwrite (no-alias) test.',
+    'level_note': 'Trusted: Coq kernel + vm_compute, the generator, the harness (incl. its watchdog and alias test). The reference adopts four leniencies of the library: illegal-length options dropped, option 0 dropped, marker+nothing = no payload, and the Code 0.00 emptiness rule of RFC 7252 section 3 is not enforced by the codec (see notes/C02.md). No-alias is by construction in the model; its tie is the harness test. Bounded time = bounded recursion depth; wall-clock only observed.',
+    'explanation': 'Coq theorems (Properties/C02.v): the guarded option loop agrees with a grammar-shaped reference parser written from RFC 7252 3.1 on every byte string and every capacity (hence never panics, never exhausts its fuel); the datagram decoder = ref_udp, the stream header pre-parse = ref_tcp_header (Short / Invalid / fields, no uint32 wrap), the stream decoder = ref_tcp (only the declared frame is parsed; inputs < 4 GiB); accepted datagrams are well-formed (C01 preconditions), so they re-encode and decode to the same message (canonicalisation); the pooled capacity-retry loop terminates from any capac',
 }
 
 NOT_APPLICABLE = {}
